@@ -24,6 +24,9 @@ structure IndCase where
   cmpSigs : Bool := true
   cmpRange : Bool := true
   sigHold : Nat := 0            -- steps during which the detector states resynchronise after a non-finite value
+  nVals : Nat := 0              -- values actually compared (not exempt)
+  nSigs : Nat := 0              -- signals actually compared
+  nSteps : Nat := 0
 
 inductive CaseState where
   | idle
@@ -281,14 +284,14 @@ def stepIndicator (d : Drv) (line : String) : Drv × Option String :=
     | none => ({ d with cs := .skip }, some s!"NOTE case={d.caseId} non-finite candle skipped")
     | some k =>
       let d := { d with ops := d.ops + 1 }
-      if res == ["P"] then
+      if res.headD "" == "P" then
         -- a panic where the model says the formula has just become undefined (relative change of a zero quantity: the
         -- deliberate NaN assertion of SMM/Highest/Lowest) belongs to C10's finding, not to the value comparison
         let undef := match i.st with
           | some ist => (match iStep d.P i.ctx ist k [] with | .ok so => so.borderline | .error _ => false)
           | none => false
         if undef then ({ d with cs := .skip, exempt := d.exempt + 1 }, none)
-        else imismatch d "ind-panic" (kindTag i) "next panicked on a valid candle" line .skip
+        else imismatch d "ind-panic" (kindTag i) s!"next panicked on a valid candle: {unwords (res.drop 1)}" line .skip
       else
       match splitRes res with
       | none => imismatch d "ind-shape" (kindTag i) "unparsable result" line .skip
@@ -347,8 +350,10 @@ def stepIndicator (d : Drv) (line : String) : Drv × Option String :=
                     | .ok => acc
                     | .exempt => (none, acc.2 + 1)
                     | .bad m => (some s!"s{p.2}:signal {m}", acc.2)) (none, 0)
-            let d := { d with exempt := d.exempt + vex + sex, specs := d.specs + (if i.cmpVals then so.vals.length else 0),
-                              lsteps := d.lsteps + (if i.cmpSigs && finite then so.sigs.length else 0) }
+            let nv := if i.cmpVals && !so.borderline then so.vals.length - vex else 0
+            let ns := if i.cmpSigs && finite && i.sigHold == 0 && !so.borderline then so.sigs.length - sex else 0
+            let i := { i with nVals := i.nVals + nv, nSigs := i.nSigs + ns, nSteps := i.nSteps + 1 }
+            let d := { d with exempt := d.exempt + vex + sex, specs := d.specs + nv, lsteps := d.lsteps + ns }
             -- a borderline model decision (SAR flip within rounding) ends the value/signal comparison of the case
             let i := { i with sigHold := if !finite then 1 else i.sigHold - 1 }
             let i := if so.borderline then { i with cmpVals := false, cmpSigs := false } else i
@@ -402,7 +407,13 @@ def step (d : Drv) (line : String) : Drv × Option String :=
       | _, _ => CaseState.idle
     ({ d with cs := cs, caseId := id, comp := comp, sub := _params.headD "", cases := d.cases + 1, caseBad := false },
       if comp == "window" || comp == "method" || comp == "action" || comp == "candle" || comp == "renko" || comp == "flags" || comp == "indicator" then none else some s!"UNKNOWN-COMPONENT case={id} comp={comp}")
-  | ["E"] => ({ d with cs := .idle }, none)
+  | ["E"] =>
+    -- per-case coverage of the indicator comparisons (aggregated into the evidence: a comparison that is silently
+    -- switched off shows as a zero count)
+    let msg := match d.cs with
+      | .ind i => if i.st.isSome then some s!"ISTAT name={i.name} steps={i.nSteps} vals={i.nVals} sigs={i.nSigs}" else none
+      | _ => none
+    ({ d with cs := .idle }, msg)
   | _ =>
     match d.cs with
     | .idle => (d, none)
